@@ -10,11 +10,11 @@ def main():
     items = list(range(1, case['items'] + 1))
     outs, exc = [], None
     try:
-        for o in Multiprocessor(TenTimes(case['faults'], case.get('exc', 'custom')), case['n'], case['m']).filter(items): outs.append(o)
+        for o in Multiprocessor(TenTimes(case['faults'], case.get('exc', 'custom'), case.get('fan', 'one')), case['n'], case['m']).filter(items): outs.append(o)
     except Exception as e:      # noqa
         exc = e
     print('OBS ' + json.dumps({'outs': outs, 'exc': type(exc).__name__ if exc is not None else None,
-                               'exc_item': getattr(exc, 'item', None) if exc is None or hasattr(exc, 'item') else (exc.args[0] if exc.args else None), 'handled': [(p, v // 10) for p, v in outs]}))
+                               'exc_item': None if exc is None else (str(getattr(exc, 'item', None) if hasattr(exc, 'item') else (exc.args[0] if exc.args else None))[:40]), 'handled': [(o[0], o[1] // 10) for o in outs if o is not None]}))
 
 
 if __name__ == '__main__':
